@@ -19,6 +19,7 @@ class Point:
 
     def __init__(
         self: Point,
+        /,
         **kwargs: float
     ) -> None:
         self._coordinates: Mapping[str, float]
